@@ -380,3 +380,115 @@ func bigCase(r *rand.Rand) string {
 	}
 	return fmt.Sprintf("k=ammo fmt=%s pre=%d hex=%s big=%d hex2=%s", format, r.Intn(2)*r.Intn(2), hex.EncodeToString([]byte(head)), n, hex.EncodeToString([]byte(tail)))
 }
+
+// ---------------------------------------------------------------- exhaustive enumerations (thorough tier)
+
+// all sequences of at most maxLen tokens
+func enumSeqs(tokens []string, maxLen int, emit func(s string)) {
+	var rec func(prefix string, depth int)
+	rec = func(prefix string, depth int) {
+		emit(prefix)
+		if depth == maxLen {
+			return
+		}
+		for _, t := range tokens {
+			rec(prefix+t, depth+1)
+		}
+	}
+	rec("", 0)
+}
+
+func exhaustiveCases() []string {
+	var out []string
+	// every file of at most five tokens, for the three modelled http formats (one pass), and of at most four tokens read
+	// again and again
+	fileTokens := []string{"1", "-", " ", "\n", "/", "a", "[", "]", ":"}
+	enumSeqs(fileTokens, 5, func(s string) {
+		h := hex.EncodeToString([]byte(s))
+		for _, f := range []string{"uripost", "raw", "uri"} {
+			out = append(out, "k=ammo fmt="+f+" pre=0 hex="+h)
+		}
+	})
+	enumSeqs(fileTokens, 4, func(s string) {
+		h := hex.EncodeToString([]byte(s))
+		for _, f := range []string{"uripost", "raw", "uri"} {
+			out = append(out, "k=ammo fmt="+f+" pre=0 passes=0 limit=3 hex="+h)
+		}
+	})
+	enumSeqs([]string{"0", "2", " ", "\n", "/", "x"}, 5, func(s string) {
+		h := hex.EncodeToString([]byte(s))
+		out = append(out, "k=ammo fmt=uripost pre=1 hex="+h, "k=ammo fmt=raw pre=1 hex="+h)
+	})
+	// name(arg, arg) strings
+	enumSeqs([]string{"a", "(", ")", ",", " ", "1", "-"}, 6, func(s string) {
+		out = append(out, "k=psf hex="+hex.EncodeToString([]byte(s)))
+	})
+	enumSeqs([]string{"a", "(", ")", ",", " ", "1", "-", "x"}, 5, func(s string) {
+		out = append(out, "k=shoot hex="+hex.EncodeToString([]byte(s)))
+	})
+	enumSeqs([]string{"[", "]", ":", " ", "a", "\t"}, 6, func(s string) {
+		out = append(out, "k=hdr hex="+hex.EncodeToString([]byte(s)))
+	})
+	// request lists of at most three items
+	atoms := []string{"r1", "r1(0)", "r1(2)", "sleep(10)", "sleep", "nosuch", "r1(x)", "r1(1,5)", "r1(-1)"}
+	var lists [][]string
+	for _, a := range atoms {
+		lists = append(lists, []string{a})
+		for _, b := range atoms {
+			lists = append(lists, []string{a, b})
+			for _, c := range atoms {
+				lists = append(lists, []string{a, b, c})
+			}
+		}
+	}
+	for _, l := range lists {
+		hs := make([]string, len(l))
+		for i, q := range l {
+			hs[i] = hex.EncodeToString([]byte(q))
+		}
+		for _, kf := range [][2]string{{"http", "yaml"}, {"grpc", "hcl"}, {"http", "hcl"}, {"grpc", "yaml"}} {
+			out = append(out, fmt.Sprintf("k=scn kind=%s fmt=%s defs=r1 reqs=%s", kf[0], kf[1], strings.Join(hs, ";")))
+		}
+	}
+	// variable paths
+	for _, src := range []string{"users", "smap", "strs", "ints", "anys", "bools", "scalar", "nosuch"} {
+		for _, idx := range []string{"next", "rand", "last", "0", "-1", "1", "2", "3", "7", "-9", "NEXT", " Last ", "x", "", "1.5", "99999999999999999999", "+1", "-0"} {
+			for _, suffix := range []string{"", ".id", ".x.y"} {
+				for n := 0; n <= 3; n++ {
+					for calls := 1; calls <= 5; calls += 2 {
+						out = append(out, fmt.Sprintf("k=mp n=%d calls=%d path=%s", n, calls, hex.EncodeToString([]byte("source."+src+"["+idx+"]"+suffix))))
+					}
+				}
+			}
+		}
+	}
+	// randInt bounds
+	vals := []string{"", "0", "1", "5", "10", "-3", "100", "9223372036854775807", "-9223372036854775808", "9223372036854775797", "-1", "7", "-9223372036854775799"}
+	for _, f := range vals {
+		for _, t := range vals {
+			if f == "" && t != "" {
+				continue
+			}
+			out = append(out, "k=ri f="+f+" t="+t)
+		}
+	}
+	// scenario weights
+	ws := []string{"-2", "-1", "0", "1", "2", "3", "4", "6", "-"}
+	for _, a := range ws {
+		out = append(out, "k=scnw kind=http fmt=yaml w="+a)
+		for _, b := range ws {
+			out = append(out, "k=scnw kind=grpc fmt=hcl w="+a+","+b)
+			for _, c := range ws {
+				out = append(out, "k=scnw kind=http fmt=hcl w="+a+","+b+","+c, "k=scnw kind=grpc fmt=yaml w="+a+","+b+","+c)
+			}
+		}
+	}
+	// sources of the generic JSON provider
+	enumSeqs([]string{`{"tag":"t"}`, "\n", " ", "{", `{"tag":"a`, "x", "}"}, 4, func(s string) {
+		h := hex.EncodeToString([]byte(s))
+		for _, pl := range [][2]int{{0, 3}, {1, 0}, {2, 0}, {3, 2}, {0, 1}} {
+			out = append(out, fmt.Sprintf("k=genjson passes=%d limit=%d hex=%s", pl[0], pl[1], h))
+		}
+	})
+	return out
+}
